@@ -638,18 +638,61 @@ func c11crashClass(stderr string) string {
 	return m + "@" + fr
 }
 
-func c11gccClass(stderr string) string {
+var (
+	c11reGccLoc = regexp.MustCompile(`^<stdin>:(\d+):(\d+): `)
+	c11reCVarID = regexp.MustCompile(`^((?:io[0-2p]_)?[avfiopstu]_)\w+$`)
+	c11reCPkgID = regexp.MustCompile(`^(?i:wuffs)_[a-zA-Z0-9]+__\w+$`)
+	c11reMean   = regexp.MustCompile(`; did you mean .*$`)
+)
+
+func c11isIdent(c byte) bool {
+	return c == '_' || ('a' <= c && c <= 'z') || ('A' <= c && c <= 'Z') || ('0' <= c && c <= '9')
+}
+
+// c11gccClass is the first error message of gcc with quoted names and numbers
+// blanked, plus the token of the emitted C that the error points at, with
+// names that come from the Wuffs source blanked (v_*, a_*, f_*, p_*, ...: the
+// prefix is kept; wuffs_<pkg>__ names other than wuffs_base__: W).
+func c11gccClass(stderr string, emitted []byte) string {
 	for _, ln := range strings.Split(stderr, "\n") {
 		i := strings.Index(ln, "error: ")
 		if i < 0 {
 			continue
 		}
 		s := ln[i+7:]
+		s = c11reMean.ReplaceAllString(s, "")
 		s = c11reAka.ReplaceAllString(s, "")
 		s = c11reGccQ.ReplaceAllString(s, "_")
 		s = c11reNum.ReplaceAllString(s, "N")
-		if len(s) > 90 {
-			s = s[:90]
+		if len(s) > 80 {
+			s = s[:80]
+		}
+		if m := c11reGccLoc.FindStringSubmatch(ln); m != nil {
+			var n, col int
+			fmt.Sscan(m[1], &n)
+			fmt.Sscan(m[2], &col)
+			lines := bytes.SplitN(emitted, []byte("\n"), n+1)
+			if n >= 1 && n <= len(lines) && col >= 1 && col <= len(lines[n-1]) {
+				l := lines[n-1]
+				a0, b0 := col-1, col
+				if c11isIdent(l[a0]) {
+					for a0 > 0 && c11isIdent(l[a0-1]) {
+						a0--
+					}
+					for b0 < len(l) && c11isIdent(l[b0]) {
+						b0++
+					}
+				}
+				tok := string(l[a0:b0])
+				if m := c11reCVarID.FindStringSubmatch(tok); m != nil {
+					tok = m[1] + "*"
+				} else if c11reCPkgID.MatchString(tok) && !strings.HasPrefix(strings.ToLower(tok), "wuffs_base__") {
+					tok = "W"
+				} else if tok[0] >= '0' && tok[0] <= '9' {
+					tok = "N"
+				}
+				s += " @" + tok
+			}
 		}
 		return s
 	}
@@ -748,7 +791,7 @@ func (l *c11leg2) run(c *c11case, always bool) string {
 		}
 		return "emitted-compiled"
 	case strings.HasPrefix(ghow, "exit:") && strings.Contains(gerr, "error"):
-		gc := c11gccClass(gerr)
+		gc := c11gccClass(gerr, out)
 		m := ex()
 		m["gcc_stderr_head"] = vk.Trunc([]byte(gerr), 1500)
 		rc.ViolateCase("emitted-c-rejected:"+gc, fmt.Sprintf("gcc rejects the C that wuffs-c emitted for an accepted package (%s %s): %s", c.kind, c.name, gc), c.phase, c.idx, m)
